@@ -95,7 +95,7 @@ def _rel(op):
     return lambda pc, v: bytes([op, v[0] & 0xff])
 
 
-def build(cmos, wdc=False):
+def build(cmos, wdc=False, bitops=True):
     forms = []
     _alu_forms(ALU, forms, cmos)
     for m, op in ACC.items():
@@ -122,7 +122,7 @@ def build(cmos, wdc=False):
         for m, op in C_ACC.items():
             forms.append(Form(m + " A", m + " a", [], _b1(op)))
         forms.append(Form("BRA rel", "BRA {0}", [Rel(-128, 127, 2)], _rel(0x80), rel=(0, lambda b: sx(b[1], 8))))
-        for n in range(8):
+        for n in range(8 if bitops else 0):     # Rockwell bit instructions (not on the 65SC02)
             forms.append(Form("RMB%d zp" % n, "RMB%d {0}" % n, [Int(0, 255, rej_lo=False)], _b2(0x07 + 16 * n)))
             forms.append(Form("SMB%d zp" % n, "SMB%d {0}" % n, [Int(0, 255, rej_lo=False)], _b2(0x87 + 16 * n)))
             for m, base in (("BBR", 0x0F), ("BBS", 0x8F)):
@@ -138,9 +138,12 @@ def build(cmos, wdc=False):
 
 
 ISAS = [
-    Isa("6502", "6502", build(False), "mot", slot=8, base=0x1000, offsets=[0, 1, 5],
-        golden=[("t_65", {"melps740": True})]),
-    Isa("65C02", "65C02", build(True), "mot", slot=8, base=0x1000, offsets=[0, 1, 5],
+    Isa("6502", "6502", build(False), "mot", pcsym="*", slot=8, base=0x1000, offsets=[0, 1, 5],
+        # t_65 runs its main part as MELPS740, a 6502 superset: two lines use 740-only encodings
+        # (zero-page indirect JMP, NOP inserted after PLP) and are not compared
+        golden=[("t_65", {"melps740": True})], golden_ignore=["jmp ($12)", "plp"]),
+    Isa("65C02", "65C02", build(True), "mot", pcsym="*", slot=8, base=0x1000, offsets=[0, 1, 5],
         golden=[("t_65", {"65c02": True})]),
-    Isa("W65C02S", "W65C02S", build(True, True), "mot", slot=8, base=0x1000, offsets=[0, 1, 5]),
+    Isa("65SC02", "65SC02", build(True, False, False), "mot", pcsym="*", slot=8, base=0x1000, offsets=[0, 1, 5]),
+    Isa("W65C02S", "W65C02S", build(True, True), "mot", pcsym="*", slot=8, base=0x1000, offsets=[0, 1, 5]),
 ]
